@@ -45,6 +45,8 @@ structure MsgSt where
   msg : Msg
   parts : List Msg
   flags : MFlags
+  loc : Option (Bytes × Bytes)      -- ghost: directory and name the message's file really has now
+  content : Bytes                   -- ghost: what that file contains
 deriving Repr
 
 def subdirName : Subdir → Bytes
@@ -193,13 +195,16 @@ def maildirMove (env : PEnv) (src dst : Maildir) (ms : MsgSt) : Prog (MsgSt × B
         | none => pure (ms, true)
         | some (fd, dstname) =>
           let r ← call (.renameat sh ms.name dh dstname)
-          let err1 ← (match r with
+          let (err1, ms) ← (match r with
             | .err e =>
               if e == "EXDEV" then do
                 let we ← messageWriteP ms.msg fd
-                if we then pure true else maildirUnlink src ms.name
-              else pure true
-            | _ => pure false)
+                if we then pure (true, ms)
+                else do
+                  let ue ← maildirUnlink src ms.name
+                  pure (ue, if ue then ms else { ms with loc := some (dst.path, dstname), content := (messageWrite ms.msg).1 })
+              else pure (true, ms)
+            | _ => pure (false, { ms with loc := some (dst.path, dstname) }))
           if err1 then
             let _ ← maildirUnlink dst dstname
             pure ()
@@ -228,6 +233,7 @@ def maildirWrite (env : PEnv) (md : Maildir) (ms : MsgSt) : Prog (MsgSt × Bool)
         let _ ← maildirUnlink md name
         pure (ms, true)
       else
+        let ms := { ms with loc := some (md.path, name), content := (messageWrite ms.msg).1 }
         match md.dirH with
         | none => pure (ms, true)
         | some d =>
@@ -369,7 +375,7 @@ def execOne (env : PEnv) (mh : Match) (st : ExecSt) : Prog (ExecSt × Bool) :=
         pure ({ st with ms := ms' }, false)
   | .discard => do
     let e ← maildirUnlink st.src st.ms.name
-    pure (st, e)
+    pure (if e then st else { st with ms := { st.ms with loc := none } }, e)
   | .label | .addHeader => do
     let (ms', e) ← maildirWrite env st.src st.ms
     pure ({ st with ms := ms' }, e)
